@@ -117,7 +117,7 @@ impl Property for C21 {
     }
 
     fn runs(&self, tier: Tier) -> u64 {
-        let n = cases().len() as u64 * SHARDS + 1;
+        let n = cases().len() as u64 * SHARDS + 3;
         match tier {
             Tier::Quick => n,
             Tier::Thorough => n * 3,
@@ -131,12 +131,14 @@ impl Property for C21 {
     fn run(&self, rc: &mut RunCtx) -> RunOut {
         let mut out = RunOut::default();
         let cs = cases();
-        let per = cs.len() as u64 * SHARDS + 1;
+        let per = cs.len() as u64 * SHARDS + 3;
         let variant = rc.idx / per;
         let within = rc.idx % per;
-        if within == per - 1 {
-            return rule_violations(rc, variant);
+        // the three rule runs (JPEG, PNG, MP4) come first: a truncated batch still has them
+        if within < 3 {
+            return rule_violations(rc, variant, within);
         }
+        let within = within - 3;
         let (fmt, binding) = cs[(within / SHARDS) as usize];
         let shard = within % SHARDS;
         let tag = format!("update:{}:{:?}:v{variant}", fmt.name(), binding);
@@ -182,10 +184,10 @@ impl Property for C21 {
     }
 }
 
-fn rule_violations(rc: &mut RunCtx, variant: u64) -> RunOut {
+fn rule_violations(rc: &mut RunCtx, variant: u64, which: u64) -> RunOut {
     let mut out = RunOut::default();
     let fmts = [Fmt::Jpeg, Fmt::Png, Fmt::Mp4];
-    let fmt = fmts[(variant % 3) as usize];
+    let fmt = fmts[(which % 3) as usize];
     let ctx = Arc::new(sdk::make_context(&json!({})));
     let mut ar = Rng::new(hash_str(&format!("{}-{variant}-c21r", rc.seed)));
     let asset = assets::generate(fmt, &mut ar);
